@@ -42,6 +42,7 @@ func init() {
 			{"C08.R7", "q", "shared: stored key-hash width covers the digits below the leaf level", c08r7},
 			{"C11.R9", "q", "shared: per-command state reset unconditional (a stale noreply swallows the next replies)", c11r9},
 			{"C02.R10", "q", "shared: hint item / key info constructors", c02r10},
+			{"C01.R13", "q", "incr refusal flag is sticky; write only when unset", c01r13},
 		},
 	})
 }
